@@ -6,7 +6,7 @@ import json, subprocess
 claimed = json.load(open('/verif/claimed.json'))
 props = [json.loads(l) for l in open('/verif/properties.jsonl')]
 checks, na = [], []
-NA = {"C19": "Visualize harness (declared-function catalogue + DOT reader) not built yet; the DOT text goes through the engine's fmt model (S3) and carries no symbolic data, so this is the weakest fit for the technique (DESIGN.md C19)"}
+NA = {}
 for p in props:
     pid = p['id']
     if pid in claimed:
@@ -21,7 +21,7 @@ for p in props:
             "level_claimed": {
                 "category": "model_checking",
                 "text": c["text"],
-                "design_ref": c.get("design_ref", "DESIGN.md §5 " + pid),
+                "design_ref": c.get("design_ref", "DESIGN.md §11.3 " + pid),
             },
             "level_note": c["note"],
             "technique": c.get("technique", "bounded symbolic execution of dig's go/ssa form (own engine gosym), path feasibility and assertions discharged by z3; counterexamples replayed natively"),
